@@ -144,7 +144,7 @@ func (w *World) enabled() []Event {
 			continue
 		}
 		idx := i
-		ev := Event{Name: "fire:" + it.name(i), tgt: it.Inst, run: func() { w.fired[idx] = true; w.maybeFine(idx); w.runItem(idx) }}
+		ev := Event{Name: "fire:" + it.name(i), tgt: it.Inst, run: func() { w.fired[idx] = true; w.maybeFine(idx); w.lastRun = ""; w.runItem(idx) }}
 		if it.At <= now {
 			def = append(def, ev)
 		} else if s.MoveScript && !it.Fixed && w.devAllowed("") {
